@@ -242,10 +242,9 @@ def _same_as_original(ctx, x, y, wit, tag):
     px, py = phases_of(x), phases_of(y)
     for sec, b in x.blocks.items():
         if sec not in y.blocks:
-            if np.any(np.asarray(b) != 0):
-                ctx.violation("roundtrip-block-lost", f"{tag}: block {sec} missing after round trip", wit)
-                return
-            continue
+            # (a stored block that happens to hold only zeros is an original block too)
+            ctx.violation("roundtrip-block-lost", f"{tag}: block {sec} missing after round trip" + ("" if np.any(np.asarray(b) != 0) else " (a stored all-zero block)"), wit)
+            return
         if not np.array_equal(np.asarray(b) * px.get(sec, 1), np.asarray(y.blocks[sec]) * py.get(sec, 1)):
             ctx.violation("roundtrip-value", f"{tag}: block {sec} not restored bit for bit", wit)
             return
@@ -368,6 +367,11 @@ def case_structure(ctx, hooks, rng):
         keep = list(keep)
         rng.shuffle(keep)
         blocks = {s: vals(tuple(ix.chargemap[c] for ix, c in zip(idx, s))) for s in keep}
+        zeroed = len(blocks) >= 2 and rng.random() < 0.1
+        if zeroed:
+            # one or two stored blocks hold nothing but zeros (explicitly stored zeros are data)
+            for s_ in rng.sample(list(blocks), rng.choice([1, 1, 2])):
+                blocks[s_] = np.zeros_like(blocks[s_])
         mixed = vals.mode == "unique" and len(blocks) >= 2 and rng.random() < 0.15
         if mixed:
             blocks, dts_ = gen.mix_block_dtypes(rng, blocks)
@@ -386,6 +390,8 @@ def case_structure(ctx, hooks, rng):
                 feat.append(f"mixed-dtype-blocks-{len(dts_)}")
             if hist_:
                 feat.append("subject-with-history")
+            if zeroed:
+                feat.append("stored-all-zero-block")
             if any(len(g) == 1 for g in groups):
                 feat.append("single-axis-group")
             if any(list(g) != sorted(g) for g in groups):
